@@ -31,6 +31,8 @@ pub enum MutOp {
     DupN { path: Vec<String>, times: usize },
     /// repeat a whole array until it has about `target` elements (a large batch with the same findings in every part of it)
     RepeatArray { path: Vec<String>, target: usize },
+    /// every array of two or more elements among the message's fields rotated by one (the first occurrence becomes the last)
+    RotateArrays,
 }
 
 #[derive(Serialize, Deserialize, Clone, Debug, PartialEq)]
@@ -202,6 +204,20 @@ pub fn apply_op(g: &mut Value, op: &MutOp) -> bool {
             }
             _ => false,
         },
+        MutOp::RotateArrays => {
+            let mut any = false;
+            if let Some(Value::Object(f)) = g.get_mut("fields") {
+                for (_, v) in f.iter_mut() {
+                    if let Value::Array(a) = v {
+                        if a.len() >= 2 {
+                            a.rotate_left(1);
+                            any = true;
+                        }
+                    }
+                }
+            }
+            any
+        }
         MutOp::RepeatArray { path, target } => match get_mut(g, path) {
             Some(Value::Array(a)) if !a.is_empty() && a.len() < *target => {
                 let base = a.clone();
@@ -547,20 +563,24 @@ fn build(mt_hint: &str, g: &Value) -> Option<(String, ParsedSwiftMessage)> {
     .flatten()
 }
 
-/// JSON → typed message (the subject) → its MT text → parse (must succeed: every field's content then
-/// passed the parser's format checks); the flag says whether the parse gives back exactly the typed message.
+/// JSON → typed message (the subject) → its MT text; the flag says whether that text parses back to
+/// exactly the typed message.
 fn build_typed(mt_hint: &str, g: &Value) -> Option<(String, ParsedSwiftMessage, bool)> {
     std::panic::catch_unwind(std::panic::AssertUnwindSafe(|| {
         let m0 = mt::json_to_typed(mt_hint, g).ok()?;
         let (j0, text) = mt::snapshot(&m0);
-        let p = mt::parse_auto(&text).ok()?;
-        if p.message_type() != m0.message_type() {
-            return None;
-        }
-        let (j1, text1) = mt::snapshot(&p);
-        let mut d = vec![];
-        crate::util::json_diff(&j0, &j1, "", &mut d);
-        Some((text.clone(), m0, d.is_empty() && text1 == text))
+        // a typed message may carry content the parser would reject (that is what the T-series rules are
+        // about): it is still a subject for the direct entry points; the plugin is judged only on an exact text
+        let exact = match mt::parse_auto(&text) {
+            Ok(p) if p.message_type() == m0.message_type() => {
+                let (j1, text1) = mt::snapshot(&p);
+                let mut d = vec![];
+                crate::util::json_diff(&j0, &j1, "", &mut d);
+                d.is_empty() && text1 == text
+            }
+            _ => false,
+        };
+        Some((text, m0, exact))
     }))
     .ok()
     .flatten()
@@ -1120,6 +1140,7 @@ impl Engine for C13 {
                     MutPlan::Climb { seed, target, attempts } => {
                         let mut r = Sm(*seed);
                         let mut hot: Option<Vec<String>> = None;
+                        let no_path: Vec<String> = vec![];
                         let measure = |g: &Value| if ss.typed { build_typed(&sc.mt, g).and_then(|(_, p, _)| nerr(&p)) } else { build(&sc.mt, g).and_then(|(_, p)| nerr(&p)) };
                         let mut cur = measure(&g).unwrap_or(0);
                         for _ in 0..*attempts {
@@ -1139,6 +1160,7 @@ impl Engine for C13 {
                                             // remember the sequence element (fields/#/i) this mutation touched, if any
                                             let path: &Vec<String> = match &op {
                                                 MutOp::Set { path, .. } | MutOp::Del { path } | MutOp::Put { path, .. } | MutOp::Dup { path } | MutOp::Rm { path } | MutOp::DupN { path, .. } | MutOp::RepeatArray { path, .. } => path,
+                                                MutOp::RotateArrays => &no_path,
                                             };
                                             hot = if path.len() >= 3 && path[1] == "#" { Some(path[..3].to_vec()) } else { hot };
                                         }
@@ -1398,7 +1420,12 @@ impl Engine for C13 {
         let mut any = false;
         for sub in s.subjects.iter_mut() {
             if let MutPlan::Explicit(ops) = &mut sub.plan {
-                ops.push(MutOp::RepeatArray { path: vec!["fields".into(), "#".into()], target: 70 + (spec.run_seed % 60) as usize });
+                if sub.typed {
+                    // an in-memory subject: its repeated fields rotated by one (what was found on the first occurrence is now on the last)
+                    ops.push(MutOp::RotateArrays);
+                } else {
+                    ops.push(MutOp::RepeatArray { path: vec!["fields".into(), "#".into()], target: 70 + (spec.run_seed % 60) as usize });
+                }
                 any = true;
             }
         }
